@@ -97,7 +97,11 @@ type Interp struct {
 	errTypes map[string]types.Type
 	pool     []Value
 	timeFmtN int
+	atoiMap  map[*Term][]*Term
+	fmtTimeVals map[*Object]*Term
 	md5Keys  map[string]int
+	md5Apps  []md5App
+	md5Acc   map[*Object][]*Term
 	known    map[*Term]*Term
 	knownLog []knownEntry
 	knownVer int
